@@ -28,8 +28,8 @@ THEOREMS = [
     "C19_descriptor_carried", "C19_doc_detected_iff_fields", "C19_field_roundtrip",
     "C19_never_altered", "C19_refuses_unmapped_type", "C19_refuses_out_of_range_integer", "C19_integer_ranges",
     "C19_refuses_second_descriptor", "C19_accepts_representable",
-    "C19_roundtrip", "C19_roundtrip_with_refusals_partial",
-    "C19_refused_then_accepted_refuted", "C19_initial_flush_harmless", "C19_timestamp_out_of_python_range_refuted",
+    "C19_roundtrip", "C19_roundtrip_with_refusals",
+    "C19_without_dry_run_refuted", "C19_initial_flush_harmless", "C19_timestamp_out_of_python_range_refuted",
     "C19_digest_unwritable_refuted", "C19_hyp_satisfiable", "C19_reader_guard", "C19_export_idempotent",
 ]
 UTC = pydt.timezone.utc
@@ -207,7 +207,7 @@ def c_schema(s):
                                        "None" if doc is None else "(Some %s)" % c_str(doc), "; ".join(fl))
 
 
-ERR_KINDS = ["EUnsupported", "EParse", "EAppend", "EMixed", "ENoWriter", "EValue", "EEncode"]
+ERR_KINDS = ["EUnsupported", "EParse", "EAppend", "EMixed", "ENoWriter", "ENoSchema", "EValue", "EEncode"]
 
 
 def err_kind(e):
@@ -220,6 +220,8 @@ def err_kind(e):
         return "EEncode"
     if isinstance(e, AttributeError) and "NoneType" in s:
         return "ENoWriter"
+    if isinstance(e, TypeError) and "NoneType" in s:
+        return "ENoSchema"
     if isinstance(e, ValueError) and "appending" in s:
         return "EAppend"
     if type(e).__name__ in ("SchemaParseException", "UnknownType"):
@@ -395,19 +397,6 @@ def classify(case, res):
     ops = case["ops"]
     outs = res["outs"]
     first_w = next((i for i, op in enumerate(ops) if op[0] == "w"), None)
-    dirty = False
-    for i, op in enumerate(ops):
-        if op[0] == "f":
-            dirty = False
-            continue
-        if outs[i] in ("EValue", "EEncode"):
-            fields = case["descs"][op[1]][1]
-            st, idx, is_text = record_status(fields, res["written"][i])
-            # bytes of the record precede the failing field, or the union index of a text that does not encode
-            if idx is None or idx > 0 or (st == "may" and is_text):
-                dirty = True
-        elif outs[i] == "ok" and dirty:
-            cls.add("accepted-after-partial-refusal")
     for i, op in enumerate(ops):
         if op[0] == "w" and outs[i] == "ok":
             if any(o[0] == "dt" and not (MIN_US <= o[1] <= MAX_US) for o in res["written"][i]):
@@ -466,13 +455,13 @@ def oracle(case, res):
         what = "read back %s, expected %d record(s) %s" % (
             fl.get("open_error") or ("%d record(s)%s %r" % (len(fl["recs"]), "" if fl["end"] == "end" else " then " + fl["end"], fl["recs"][:3])),
             len(expected), repr(expected[:3])[:400])
-        order = ["accepted-after-partial-refusal", "instant-outside-year-1-9999"]
-        if "OverflowError" in fl.get("end", ""):
-            order.reverse()
-        for c in order:
-            if c in cls:
-                problems.append(("finding:" + c, what))
-                break
+        if "instant-outside-year-1-9999" in cls and ("OverflowError" in fl.get("end", "") or "OverflowError" in fl.get("open_error", "")):
+            # everything read before the unreadable instant must still be right
+            n = len(fl.get("recs", []))
+            if fl.get("recs", []) == expected[:n] and fl["name"] == name0 and fl["fields"] == fields0:
+                problems.append(("finding:instant-outside-year-1-9999", what))
+            else:
+                problems.append(("violation", what))
         else:
             problems.append(("violation", what))
     else:
@@ -708,7 +697,14 @@ def boundary_cases():
     d = ["test/ff", [["uint32", "n"], ["string", "s"]]]
     out.append(dict(descs=[d], ops=[["w", 0, [in_value(2**31), in_value("bad")] + reserved_specs(rnd)],
                                     ["w", 0, [in_value(5), in_value("good")] + reserved_specs(rnd)]]))
-    # refused, flushed, accepted: the leftover bytes end up in a block of their own
+    # repaired defect 15e4336: a refused record followed by an accepted one in the same block
+    d = ["test/a", [["string", "a"], ["uint32", "b"]]]
+    res = [["none"], ["none"], in_value(dt_values()[9]), ["int", 1]]
+    out.append(dict(descs=[d], ops=[["w", 0, [in_value("two"), in_value(2**31)] + res],
+                                    ["w", 0, [in_value("\x02\x02\x02\x02"), in_value(7)] + res]]))
+    out.append(dict(descs=[d], ops=[["w", 0, [in_value("one"), in_value(1)] + res], ["w", 0, [in_value("s\udcff"), in_value(2)] + res],
+                                    ["w", 0, [in_value("two"), in_value(2**32 - 1)] + res], ["w", 0, [in_value("three"), in_value(3)] + res]]))
+    # refused, flushed, accepted
     d = ["test/fl", [["string", "s"], ["uint32", "n"]]]
     out.append(dict(descs=[d], ops=[["w", 0, [in_value("one"), in_value(1)] + reserved_specs(rnd)],
                                     ["w", 0, [in_value("two"), in_value(2**31)] + reserved_specs(rnd)], ["f"],
@@ -725,8 +721,6 @@ def witness_cases():
     res = [["none"], ["none"], ts, ["int", 1]]
     d = ["test/a", [["string", "a"], ["uint32", "b"]]]
     w = {}
-    w["accepted-after-partial-refusal"] = dict(descs=[d], ops=[["w", 0, [in_value("two"), in_value(2**31)] + res],
-                                                              ["w", 0, [in_value("\x02\x02\x02\x02"), in_value(7)] + res]])
     w["instant-outside-year-1-9999"] = dict(descs=[["test/t", [["string", "s"], ["datetime", "ts"]]]], ops=[
         ["w", 0, [in_value("ok"), in_value(dt_values()[0])] + res],
         ["w", 0, [in_value("early"), in_value(dt_out_of_range()[0])] + res],
@@ -799,6 +793,7 @@ Definition noint (z : Z) : N := 0.
 Definition werr_eqb (a b : werr) : bool :=
   match a, b with
   | EUnsupported, EUnsupported | EParse, EParse | EAppend, EAppend | EMixed, EMixed | ENoWriter, ENoWriter
+  | ENoSchema, ENoSchema
   | EValue, EValue | EEncode, EEncode | ECode, ECode => true
   | _, _ => false end.
 Definition outcome_eqb (a b : outcome) : bool :=
@@ -1069,8 +1064,8 @@ def run(ctx):
     ok = core.standard_proof_stage(ctx, ["props/C19.vo"], "C19", THEOREMS, search_fn=search, gens=["gen_avro"])
     ctx.assumptions += [
         "fastavro 1.12.2 (compiled) is an environment model in coq/model/Avro.v (union matching as write_union/_validate do, "
-        "int32/int64 ranges, tuple notation, timestamp-micros/-millis preparation and reading, the block buffer that keeps the "
-        "bytes of a refused record, block count, flush of a non-empty buffer, the appendable-file check, the stored schema "
+        "int32/int64 ranges, tuple notation, timestamp-micros/-millis preparation and reading, the block buffer that would keep the "
+        "bytes of a record refused half-way (unreachable now: the adapter's dry run refuses first), block count, flush of a non-empty buffer, the appendable-file check, the stored schema "
         "with the full name) -- validated only by this correspondence; codecs and the container framing are not modelled",
         "double -> float -> double conversion is the oracle to_f32 on bit patterns (ctypes.c_float, i.e. the C conversion "
         "fastavro's compiled writer performs; 1e39 -> +inf and 5e-324 -> 0.0 are IEEE round-to-nearest results and count as "
@@ -1090,7 +1085,7 @@ def run(ctx):
         "decisions: text with surrogate code points (surrogate-escaped bytes, lone surrogates) is refused with "
         "UnicodeEncodeError, never altered -- the statement allows refusal; a refusal happens at write() (fastavro encodes "
         "eagerly into its block buffer), not at flush()/close(); after a refusal the file stays readable with the earlier "
-        "records UNLESS another record is accepted before the next flush (known finding accepted-after-partial-refusal)",
+        "records and with every record accepted later (the dry run of commit 15e4336 keeps a refused record out of the buffer)",
         "a field-less descriptor's doc text does not satisfy the detection condition; the reader rebuilds it from "
         "namespace/name (proved equal for names without '.', not starting/ending with '/')",
         "out of scope, observed: AvroReader cannot read a foreign file whose schema has a non-reserved field starting "
